@@ -67,6 +67,8 @@ func c14ErrClass(err error) string {
 			return "E:bytestoolong"
 		case me.Func == "MsgVersion":
 			return "E:ualong"
+		case strings.Contains(d, "size too large for message"):
+			return "E:toolarge"
 		case strings.HasPrefix(d, "too many"):
 			return "E:toomany"
 		case strings.HasPrefix(d, "block headers may not contain"):
